@@ -99,3 +99,125 @@ Definition spec_dec_superblock (tol : tolerance) (bs : bytes) : outcome (superbl
            sbs_flags := flags; sbs_base := base; sbs_ext := ext; sbs_eof := eof; sbs_driver := undef o;
            sbs_root := root; sbs_root_entry := None |}, tg, r)
   else Err.
+
+(* ------------------------------------------------------------------ IV.A.1 object headers
+   A header message as framed in a header chunk: type, flags, [creation order], data. *)
+Record msg_spec := { ms_type : N; ms_flags : N; ms_corder : option N; ms_data : bytes }.
+
+(* IV.A.1.a version 1 message framing:
+     type (2) | size of message data (2; includes padding to a multiple of 8) | flags (1) | reserved (3, zero) | data
+   The messages of a chunk fill it exactly. *)
+Fixpoint p_msgs_v1 (fuel : nat) (bs : bytes) : outcome (list msg_spec) :=
+  match bs with
+  | [] => Ok []
+  | _ =>
+    match fuel with
+    | O => Err
+    | S fuel' =>
+      '(ty, r) <- p_u 2 bs;;
+      '(sz, r) <- p_u 2 r;;
+      '(fl, r) <- p_byte r;;
+      '(_, r) <- p_zeros 3 r;;
+      _ <- guard (sz mod 8 =? 0);;
+      '(d, r) <- p_take (N.to_nat sz) r;;
+      rest <- p_msgs_v1 fuel' r;;
+      Ok ({| ms_type := ty; ms_flags := fl; ms_corder := None; ms_data := d |} :: rest)
+    end
+  end.
+
+(* Version 1 object header prefix:
+     version (1) | reserved (zero) | total number of header messages (2) | object reference count (4) |
+     object header size (4): the number of bytes of header message data in the first chunk | padding (4) to an 8-byte boundary
+   then the first chunk.  Continuation chunks hold messages in the same framing; "total number" counts the messages of all chunks. *)
+Record ohdr1_spec := { o1_nmsgs : N; o1_refcount : N; o1_size : N; o1_msgs : list msg_spec }.
+
+Definition is_cont (m : msg_spec) : bool := ms_type m =? 16.
+
+Definition spec_dec_ohdr1 (bs : bytes) : outcome (ohdr1_spec * bytes) :=
+  '(ver, r) <- p_byte bs;;
+  _ <- guard (ver =? 1);;
+  '(_, r) <- p_zeros 1 r;;
+  '(n, r) <- p_u 2 r;;
+  '(rc, r) <- p_u 4 r;;
+  '(hs, r) <- p_u 4 r;;
+  '(_, r) <- p_zeros 4 r;;
+  '(area, r) <- p_take (N.to_nat hs) r;;
+  ms <- p_msgs_v1 (S (length area)) area;;
+  (* without a continuation message the first chunk holds all the messages *)
+  _ <- guard (if existsb is_cont ms then N.of_nat (length ms) <=? n else N.of_nat (length ms) =? n);;
+  Ok ({| o1_nmsgs := n; o1_refcount := rc; o1_size := hs; o1_msgs := ms |}, r).
+
+(* a version 1 continuation chunk: messages only *)
+Definition spec_dec_ohdr1_cont (bs : bytes) : outcome (list msg_spec) := p_msgs_v1 (S (length bs)) bs.
+
+(* IV.A.1.b version 2 message framing:
+     type (1) | size of message data (2) | flags (1) | [creation order (2), iff header flag bit 2] | data
+   A gap of fewer bytes than a message prefix may follow the last message; it is zero. *)
+Fixpoint p_msgs_v2 (corder : bool) (fuel : nat) (bs : bytes) : outcome (list msg_spec) :=
+  let mh := if corder then 6%nat else 4%nat in
+  if (length bs <? mh)%nat then (_ <- guard (all_zero bs);; Ok [])
+  else
+    match fuel with
+    | O => Err
+    | S fuel' =>
+      '(ty, r) <- p_byte bs;;
+      '(sz, r) <- p_u 2 r;;
+      '(fl, r) <- p_byte r;;
+      '(co, r) <- (if corder then '(c, r) <- p_u 2 r;; Ok (Some c, r) else Ok (None, r));;
+      '(d, r) <- p_take (N.to_nat sz) r;;
+      rest <- p_msgs_v2 corder fuel' r;;
+      Ok ({| ms_type := ty; ms_flags := fl; ms_corder := co; ms_data := d |} :: rest)
+    end.
+
+(* Version 2 object header:
+     "OHDR" | version (2) | flags (bits 0-1: width of the chunk 0 size field, 2: attribute creation order tracked, 3: indexed,
+     4: non-default attribute storage phase change values stored, 5: times stored, 6-7 reserved) |
+     [bit 5: access, modification, change, birth time (4 each)] | [bit 4: max compact (2), min dense (2)] |
+     size of chunk 0 (1, 2, 4 or 8) | messages | gap | checksum (4) of everything before it
+   "Size of chunk 0" counts the messages and the gap, not the prefix and not the checksum. *)
+Record ohdr2_spec := { o2_flags : N; o2_times : option (N * N * N * N); o2_phase : option (N * N); o2_chunk0 : N;
+                       o2_msgs : list msg_spec }.
+
+Definition ohdr_sig : bytes := [79; 72; 68; 82].    (* "OHDR" *)
+Definition ochk_sig : bytes := [79; 67; 72; 75].    (* "OCHK" *)
+
+(* the chunk's checksum: the 4 bytes after the messages hold the checksum of [covered]; listed deviation: no checksum is
+   stored at all (the bytes after the messages, if any, belong to something else) *)
+Definition chunk_checksum (tol : tolerance) (covered r : bytes) : outcome (list tag * bytes) :=
+  match p_u 4 r with
+  | Ok (stored, r') => if stored =? spec_checksum covered then Ok ([], r')
+                       else tg <- dev tol T_ohdr_no_checksum;; Ok (tg, r)
+  | _ => tg <- dev tol T_ohdr_no_checksum;; Ok (tg, r)
+  end.
+
+Definition spec_dec_ohdr2 (tol : tolerance) (bs : bytes) : outcome (ohdr2_spec * list tag * bytes) :=
+  '(_, r) <- p_expect ohdr_sig bs;;
+  '(ver, r) <- p_byte r;;
+  _ <- guard (ver =? 2);;
+  '(fl, r) <- p_byte r;;
+  _ <- guard (fl <? 64);;
+  '(times, r) <- (if N.testbit fl 5 then
+                    '(a, r) <- p_u 4 r;; '(m, r) <- p_u 4 r;; '(c, r) <- p_u 4 r;; '(b, r) <- p_u 4 r;; Ok (Some (a, m, c, b), r)
+                  else Ok (None, r));;
+  '(phase, r) <- (if N.testbit fl 4 then '(a, r) <- p_u 2 r;; '(b, r) <- p_u 2 r;; Ok (Some (a, b), r) else Ok (None, r));;
+  '(csz, r) <- p_u (N.to_nat (N.shiftl 1 (N.land fl 3))) r;;
+  '(area, r) <- p_take (N.to_nat csz) r;;
+  ms <- p_msgs_v2 (N.testbit fl 2) (S (length area)) area;;
+  '(tg, r') <- chunk_checksum tol (consumed bs r) r;;
+  Ok ({| o2_flags := fl; o2_times := times; o2_phase := phase; o2_chunk0 := csz; o2_msgs := ms |}, tg, r').
+
+(* Version 2 continuation chunk:  "OCHK" | messages | gap | checksum (4).  Its length comes from the continuation message. *)
+Definition spec_dec_ochk (tol : tolerance) (corder : bool) (bs : bytes) : outcome (list msg_spec * list tag) :=
+  '(_, r) <- p_expect ochk_sig bs;;
+  _ <- guard (4 <=? length r)%nat;;
+  let area := firstn (length r - 4) r in
+  let ck := skipn (length r - 4) r in
+  match (ms <- p_msgs_v2 corder (S (length area)) area;;
+         '(stored, _) <- p_u 4 ck;;
+         if stored =? spec_checksum (consumed bs ck) then Ok ms else Err) with
+  | Ok ms => Ok (ms, [])
+  | _ =>
+    (* listed deviation: no checksum; the chunk is "OCHK" and messages only *)
+    ms <- p_msgs_v2 corder (S (length r)) r;;
+    tg <- dev tol T_ohdr_no_checksum;; Ok (ms, tg)
+  end.
